@@ -693,7 +693,7 @@ func hashFile(fn string) (string, error) {
 
 func generateInit(dir string) error {
 	debug.Println("generating default magefile in", dir)
-	f, err := os.Create(filepath.Join(dir, initFile))
+	f, err := os.OpenFile(filepath.Join(dir, initFile), os.O_WRONLY|os.O_CREATE|os.O_EXCL, 0666)
 	if err != nil {
 		return fmt.Errorf("could not create mage template: %v", err)
 	}
